@@ -238,6 +238,10 @@ impl Engine for CrashEngine {
         knobs.insert("after_first_ack".into(), (property == "C02") as i64);
         knobs.insert("nested".into(), (property == "C04") as i64);
         knobs.insert("nested_points".into(), if thorough { -1 } else { 3 });
+        // recovery with one failing device call (own tape)
+        let mut fr = Tape::fresh(mix(seed, 0xFA11ED));
+        knobs.insert("faulty_recovery".into(), (matches!(property, "C04" | "C09") && fr.chance(1, 2)) as i64);
+        knobs.insert("faulty_recovery_points".into(), if thorough { 6 } else { 2 });
         knobs.insert("reopen_again".into(), if property == "C04" { 2 } else { c.below(2) as i64 });
         knobs.insert("probe".into(), (property != "C04") as i64);
         // window-edge family (own tape): see run_workload
@@ -1096,6 +1100,22 @@ fn process_capture(sim: &Arc<Sim>, sc: &Scenario, run: &WorkloadRun, report: &mu
                 break;
             }
         }
+        // C04 / C09: recovery with a failing device call
+        // (only for images of a store whose initialisation had completed: a short write into the
+        // very first metadata block of an empty file leaves a file that is refused as foreign -
+        // nothing was ever stored in it, and none of the properties speaks about that case)
+        if sc.knob("faulty_recovery", 0) == 1 && recovery_calls > 0 && report.violation.is_none() && codec::read_meta(&image).is_some() {
+            for _ in 0..sc.knob("faulty_recovery_points", 2) {
+                let p = pick.below(recovery_calls as u32) as u64;
+                if let Err((rule, detail)) = faulty_recovery(sim, sc, &mut env, &image, p, &r1, &label, report, pick) {
+                    report.fail(&rule, detail);
+                    break;
+                }
+            }
+            if report.violation.is_some() {
+                break;
+            }
+        }
         // C03: the recovered store works
         if probe && images_done % 3 == 1 {
             if let Err((rule, detail)) = probe_store(sim, &env, &r1, &label) {
@@ -1137,6 +1157,76 @@ pub fn contents_diff(a: &Contents, b: &Contents, ttl: bool, now: u64) -> Option<
         }
     }
     None
+}
+
+/// Recovery with one failing device call (a read of the scan, a repair write, a barrier): either
+/// the open reports the failure, or it succeeds with exactly what an undisturbed recovery
+/// exposes; and whatever it did to the device, a later undisturbed recovery of the device as it
+/// stands still exposes the same contents - an I/O error is reported and never destroys data.
+#[allow(clippy::too_many_arguments)]
+pub(crate) fn faulty_recovery(
+    sim: &Arc<Sim>,
+    sc: &Scenario,
+    env: &mut Env,
+    image: &[u8],
+    at_call: u64,
+    r1: &Contents,
+    label: &str,
+    report: &mut BodyReport,
+    pick: &mut Tape,
+) -> Result<(), (String, String)> {
+    use crate::disk::FaultKind;
+    let write_kind = *pick.pick(&[FaultKind::WriteFailBefore, FaultKind::WriteFailAfter, FaultKind::WriteShort, FaultKind::WriteNoSpace]);
+    let fsync_kind = *pick.pick(&[FaultKind::FsyncFail, FaultKind::FsyncFailAfter]);
+    // whatever kind of call has this index fails (the device ignores kinds that do not fit the call)
+    let persistent = pick.chance(1, 4);
+    let plan = FaultPlan {
+        at_call: vec![(at_call, FaultKind::ReadFail), (at_call, write_kind), (at_call, fsync_kind)],
+        dead_from_call: persistent.then_some(at_call),
+        ..FaultPlan::default()
+    };
+    let what = format!("{label} -> recovery with device call #{at_call} failing ({write_kind:?}/{fsync_kind:?}/ReadFail{})", if persistent { ", and every write and barrier after it" } else { "" });
+    let outcome = recover(sim, sc, env, image.to_vec(), Some(plan))?;
+    let disk = env.disk.clone().unwrap();
+    let fired: u64 = disk.stats().faults_fired.values().sum();
+    if fired == 0 {
+        return Ok(());
+    }
+    report.count("faulty_recoveries", 1);
+    let now = sim.now_wall();
+    match outcome {
+        Ok(rec) => {
+            report.count("faulty_recoveries_that_opened", 1);
+            if let Some(diff) = contents_diff(r1, &rec.contents, sc.store.ttl, now) {
+                return Err((
+                    "recovery-swallowed-io-error".into(),
+                    format!("[{what}] open() returned Ok but exposes something else than the undisturbed recovery of the same image: {diff}"),
+                ));
+            }
+        }
+        Err(_) => report.count("faulty_recoveries_refused", 1),
+    }
+    // the device as the failed (or successful) attempt left it; no power loss
+    let as_is = disk.cache_image();
+    env.close();
+    match recover(sim, sc, env, as_is, None)? {
+        Ok(rec) => {
+            let now = sim.now_wall();
+            if let Some(diff) = contents_diff(r1, &rec.contents, sc.store.ttl, now) {
+                return Err((
+                    "io-error-in-recovery-destroyed-data".into(),
+                    format!("[{what}] an undisturbed recovery of the device as that attempt left it differs from the undisturbed recovery of the original image: {diff}"),
+                ));
+            }
+        }
+        Err(e) => {
+            return Err((
+                "reopen-failed-after-faulty-recovery".into(),
+                format!("[{what}] the device as that attempt left it can no longer be opened: {e:?}"),
+            ))
+        }
+    }
+    Ok(())
 }
 
 #[allow(clippy::too_many_arguments)]
